@@ -16,6 +16,9 @@ Spec (from the property statement and docs/hessian.md, docs/vectors.md; nothing 
   saved matrix        H[(i,p),(j,q)] = -[r_ij <= rc] B(D(i,j))[p,q] / sqrt(m_i m_j)            (i != j)
                       H[(i,p),(i,q)] = sum_{j != i} [r_ij <= rc] B(D(i,j))[p,q] / m_i            (= M^-1/2 d2U M^-1/2)
   symmetric, annihilates sqrt(m) e_q, omega = sqrt(lambda) for lambda > 0, PR = (sum |e_i|^2)^2 / (N sum |e_i|^4) in (0,1].
+
+The last line is derived, in the unit of diagonalize_hessian, from the entry-wise form of the saved matrix and nothing else about the code
+(clause families symmetric:*, translations:*, PR-range:*; see Diagonalize._structure and Diagonalize._pr_range).
 """
 import z3
 
@@ -1222,8 +1225,9 @@ UNITS = UNITS + _callee_units([('C02', None), ('C12', None)], UNITS)
 
 
 def lemmas():
-    """spec-level lemmas on fresh variables: the symmetry and translation clauses of the statement follow from the proved
-    form of the saved matrix (hessian_spec) by these identities"""
+    """spec-level lemmas on fresh variables; the symmetry and translation clauses of the unit of diagonalize_hessian use instances of
+    rint(-a) = -rint(a) (ring rewrites) and of the product form of the translation summand (one per pair of species masses); the other
+    identities are re-proved there on the terms of the saved matrix and are kept here in their generic form"""
     from contracts import C02
     x_ = sv.real("x")
     out = [("lemma:x>0=>sqrt(x.x)=x", sv.implies(x_ > 0, sv.cmp("==", sv.sqrt(sv.mul(x_, x_)), x_)), {})]
